@@ -34,6 +34,7 @@ func runC15(c *core.Ctx) {
 		rulePublishedNotRecycled(c, "C15-R9", cp, cp+"/builder")
 	}()
 	defer ruleRealParse(c, "C15-R8", [2]string{cp, "parseNumber"})
+	defer ruleNoDeadFieldStores(c)
 	ruleClassTable(c, "C15-R1", "pdf")
 	ruleClassTable(c, "C15-R1", cp)
 	c.Check("C15-R1", "class-tables-equal", "the object scanner and the content scanner classify every byte identically", func(o *core.Ob) {
@@ -614,4 +615,76 @@ func rulePublishedNotRecycled(c *core.Ctx, rule string, pkgs ...string) {
 func isEllipsis(e ast.Expr) bool {
 	_, ok := e.(*ast.Ellipsis)
 	return ok
+}
+
+// ruleNoDeadFieldStores (C15-R10): a store into a field of b.State (or of
+// any other struct-valued field) is lost if the whole field is replaced
+// afterwards.  Builder.Reset and New install the PDF version that gates
+// version-dependent operator rules into the fresh State: in the builder
+// package no statement "x.f.g = v" may be followed, without an intervening
+// read, by "x.f = ...".
+func ruleNoDeadFieldStores(c *core.Ctx) {
+	const pk = "pdf/graphics/content/builder"
+	c.Check("C15-R10", pk+"/dead-field-stores", "no store into a field of a struct-valued field is overwritten by a later replacement of the whole field", func(o *core.Ob) {
+		pkg := c.Prog.Pkg(pk)
+		n := 0
+		for _, fn := range c.Prog.Funcs(pkg) {
+			g := fn.Graph()
+			for _, v := range g.Vs {
+				as, ok := v.AST.(*ast.AssignStmt)
+				if !ok {
+					continue
+				}
+				for _, l := range as.Lhs {
+					outer, ok := ast.Unparen(l).(*ast.SelectorExpr)
+					if !ok {
+						continue
+					}
+					inner, ok := ast.Unparen(outer.X).(*ast.SelectorExpr)
+					if !ok {
+						continue
+					}
+					n++
+					o.Count(1)
+					target := c.Prog.Src(inner)
+					after := g.ReachFrom(v, false, nil)
+					for _, w := range g.Vs {
+						if !after[w] || w == v {
+							continue
+						}
+						as2, ok := w.AST.(*ast.AssignStmt)
+						if !ok {
+							continue
+						}
+						for _, l2 := range as2.Lhs {
+							if c.Prog.Src(l2) == target {
+								o.FailAt(fn.Site(as, ""), "%s: %s is stored and then %s is replaced as a whole at %s: the stored value is lost", c.Prog.Pos(as.Pos()), c.Prog.Src(l), target, c.Prog.Pos(as2.Pos()))
+							}
+						}
+					}
+				}
+			}
+		}
+		o.Require(n >= 3, "only %d nested field stores found", n)
+	})
+	c.Check("C15-R10", pk+".(*Builder).Reset/version", "Reset installs the builder's PDF version in the state it creates", func(o *core.Ob) {
+		fn := c.Prog.Func(pk, "(*Builder).Reset")
+		g := fn.Graph()
+		var newState, setVersion *core.V
+		for _, v := range g.Vs {
+			if as, ok := v.AST.(*ast.AssignStmt); ok && len(as.Lhs) == 1 {
+				switch strings.TrimPrefix(c.Prog.Src(as.Lhs[0]), "b.") {
+				case "State":
+					newState = v
+				case "State.Version":
+					setVersion = v
+				}
+			}
+		}
+		o.Count(1)
+		o.Require(newState != nil && setVersion != nil, "Reset does not create a state and set its version")
+		if newState != nil && setVersion != nil {
+			o.Require(g.Dominates(newState, setVersion), "the version is not stored into the newly created state")
+		}
+	})
 }
